@@ -2,6 +2,7 @@
 (A1-A4).  One regex for all properties so the fact cache is shared."""
 PATTERNS = [
     r"celeritas::XorwowRngEngine::",
+    r"celeritas::XorwowRngParamsData::num_(words|bits)",
     r"celeritas::XorwowRngParams::get_jump",
     r"celeritas::detail::GenerateCanonical32",
     r"celeritas::reseed_rng",
